@@ -89,8 +89,23 @@ def with_kw(term, k, v):
     return (name, {c.name: kw2[c.name] for c in S.children(cls) if c.name in kw2}, list(mem))
 
 
+def touch_bases(cls):
+    """read the introspection properties of every base class, root first - what `dir()`/documentation tools or a user
+    looking at a base class do; what a class enforces must not depend on whether that happened before"""
+    from ofxtools.models.base import Aggregate
+
+    for base in reversed(cls.__mro__):
+        if isinstance(base, type) and issubclass(base, Aggregate):
+            for prop in ("spec", "spec_no_listaggregates", "elements", "subaggregates", "unsupported", "listaggregates", "listelements"):
+                try:
+                    getattr(base, prop)
+                except Exception:
+                    pass
+
+
 def class_probes(t, cls):
     n = cls.__name__
+    touch_bases(cls)
     P = Probe(t, n)
     chs = S.children(cls)
     cm = {c.name: c for c in chs}
@@ -151,6 +166,12 @@ def class_probes(t, cls):
             if c.typ == "String":
                 P.must_reject("ctor", f"len({c.name})={L + 1}", f"maxlen:{c.name}", via_ctor, setv(over), case)
                 P.must_reject("tree", f"len({c.name})={L + 1}", f"maxlen:{c.name}", via_tree, settext(over), case)
+                # white space counts: a value one character too long is too long even if that character is a blank
+                for pad, how in ((" ", "trailing blank"), ("\t", "trailing tab")):
+                    P.must_reject("ctor", f"len({c.name})={L}+{how}", f"maxlen:{c.name}", via_ctor, setv("x" * L + pad), case)
+                    P.must_reject("tree", f"len({c.name})={L}+{how}", f"maxlen:{c.name}", via_tree, settext("x" * L + pad), case)
+                P.must_reject("tree", f"len({c.name})={L}+&nbsp;", f"maxlen:{c.name}", via_tree, settext("x" * L + "&nbsp;"), case)
+                P.must_reject("ctor", f"len({c.name})={L}+leading blank", f"maxlen:{c.name}", via_ctor, setv(" " + "x" * L), case)
                 # the limit counts characters of the value, not of its escaped text
                 if L >= 1:
                     esc = "&amp;" * L
@@ -268,7 +289,13 @@ def class_probes(t, cls):
 def work(chunk):
     t = Tally()
     for clsname in chunk:
-        class_probes(t, U.cls_by_name(clsname))
+        try:
+            class_probes(t, U.cls_by_name(clsname))
+        except HarnessError:
+            raise
+        except Exception as e:
+            # a valid helper instance or tree could not be built through the library: that is a boundary case refused
+            t.fail(f"C04|{clsname}|valid-construction|refused-{type(e).__name__}", {"cls": clsname, "probe": "crash"}, f"{type(e).__name__}: {str(e)[:200]}")
         t.count("classes")
     return t
 
@@ -303,6 +330,7 @@ def run(ctx):
     }
     return {"tally": tally, "coverage": cov, "assumptions": [
         "class-specific validate_args rules are exercised only as far as the hint table needs them to build valid baselines",
+        "before a class is probed the introspection properties (spec, listaggregates, ...) of all its bases are read, root first",
         "groups naming a repeated child are C13's finding and are skipped here (fewer than two keyword members)",
         "TAX1099INT_V100's order/duplicate probes are skipped (its list position defect is recorded under C13/C01)"]}
 
